@@ -25,7 +25,7 @@ class SimFile:
         fs = self.fs
         sim = fs.sim
         sim.point('fs.write')
-        f = fs.faults.hit('fs', op='write', dest=fs.dest_of(self.name))
+        f = fs.faults.hit('fs', op='write', dest=fs.dest_of(self.name), path=self.name)
         if f is not None:
             exc = make_exc(f['exc'], f['id'])
             if f.get('short') and len(data) > 1:
